@@ -151,7 +151,11 @@ def run_shard(check, tier, seed, shard, nshards, budget_s, with_coverage):
                 # raised by the harness itself is a harness bug (inconclusive).
                 tb = traceback.extract_tb(e.__traceback__)
                 inner = tb[-1].filename if tb else ''
-                if inner.startswith(common.REPO + os.sep):
+                if isinstance(e, common.DocumentedCallRejected):
+                    out = common.Outcome()
+                    out.nontrivial = True
+                    out.fail('documented-call-convention-rejected', error=str(e))
+                elif inner.startswith(common.REPO + os.sep):
                     out = common.Outcome()
                     out.nontrivial = True
                     out.fail('exception-escaped-from-rxsci', error=repr(e),
